@@ -390,6 +390,10 @@ func (g *G) GuardedByGen(target Loc, holds func(cond ast.Expr, truth bool) bool,
 // the fact only when each alternative does; `!a` flips the polarity.
 func Implied(cond ast.Expr, truth bool, holds func(atom ast.Expr, truth bool) bool) bool {
 	cond = ast.Unparen(cond)
+	// an edge that cannot be taken implies everything (constants appear when predicate helpers are inlined)
+	if id, ok := cond.(*ast.Ident); ok && ((id.Name == "false" && truth) || (id.Name == "true" && !truth)) {
+		return true
+	}
 	if be, ok := cond.(*ast.BinaryExpr); ok && (be.Op == token.LAND || be.Op == token.LOR) {
 		// the caller may recognise the compound condition as a whole
 		if holds(cond, truth) {
